@@ -164,3 +164,49 @@ pub fn check(v: &View, vd: &mut Verdict) {
     }
     vd.nontrivial = nt;
 }
+
+/// From the moment an accepted stop request is in the mailbox the mailbox arm of the fair select is ready
+/// in every round: 48 stream items in a row afterwards mean that it was not looked at (for other families
+/// that run stream-attached actors)
+pub fn stop_starved(v: &View, vd: &mut Verdict, prop: &str) {
+    for a in 0..v.actors.len() {
+        if v.actors[a].spawned.is_none() || !v.rt[a].stream {
+            continue;
+        }
+        let av = &v.actors[a];
+        let mut since = u64::MAX;
+        for &i in &av.stop_reqs {
+            let o = &v.ops[i];
+            let s = match o.what {
+                OpWhat::Stop | OpWhat::TryStop if o.ok() => o.end.unwrap_or(u64::MAX),
+                OpWhat::Halt | OpWhat::TryHalt | OpWhat::Consume | OpWhat::ConsumeSync if o.was_pending || o.ok() => o.begin + 2,
+                _ => u64::MAX,
+            };
+            since = since.min(s);
+        }
+        for e in v.hist {
+            if let EvKind::CtxOp { actor, op: CtxOpKind::Stop, ok: true, .. } = &e.kind {
+                if *actor == a {
+                    since = since.min(e.stamp);
+                }
+            }
+        }
+        if since == u64::MAX {
+            continue;
+        }
+        let mut mine: Vec<&InvRec> = v.invs.iter().filter(|i| i.actor == a && i.enter > since).collect();
+        mine.sort_by_key(|i| i.enter);
+        let (mut run, mut worst) = (0usize, 0usize);
+        for i in mine {
+            if matches!(i.msg, MsgRef::Item(_)) {
+                run += 1;
+                worst = worst.max(run);
+            } else {
+                run = 0;
+            }
+        }
+        if worst >= 48 {
+            vd.fail(format!("{prop}/stop_starved_by_items"), format!("actor {a}: a stop request was in the mailbox from {since} on, yet {worst} stream items in a row were handled afterwards before the loop looked at the mailbox"));
+        }
+    }
+}
